@@ -559,9 +559,6 @@ def gen_program(r, size=None):
   g = Gen(r)
   if r.random() < .5:
     g.emit(0, "import typing")
-  if r.random() < .05:
-    g.out.insert(0, "from __future__ import annotations")
-    g.f("future-annotations")
   n = size or r.randint(2, 7)
   ctx = {"func": False}
   for _ in range(n):
